@@ -23,18 +23,15 @@ Definition cpdag_vstructs_stmt : Prop := forall d ord c r, is_dag d -> topo d or
 Definition cpdag_compelled_sound_stmt : Prop := forall d ord vs c r, is_dag d -> topo d ord ->
   cpdag_model d ord = Some (vs, c, r) -> forall a b, In (a, b) c -> essential d a b.
 
-(* NOT proved for all sizes (proved for n <= 5 as part of cpdag_essential_bounded_5): undirected => not essential.
-   By cpdag_compelled_iff_derivable (C04/DerComplete.v) this is equivalent to the algorithm-free statement
-   "forall d a b, is_dag d -> In (a,b) (D d) -> ~ Der d a b -> exists d', is_dag d' /\ meq d d' /\ In (b,a) (D d')".
-   Proof plan (not formalised): represent equivalent DAGs by node orders; by strong induction on the position of b, make the
-   parent set of b equal to any K with all removed parents w non-derivable, using: latest parent p of b; F1 other parents of b
-   are parents of p (else v-structure); F2 parents of p not adjacent to b are non-derivable (rule 1); recursive call at p; then
-   p -> b is covered and the adjacent transposition preserves skeleton and v-structures; Der is invariant under meq. *)
+(* proved for ALL sizes (C04/Reversible.v + Essential.v): undirected => not essential.  Route: the non-compelled edges form an
+   undirected graph U; compelled parents are shared along U (chain-graph lemma); the reversed topological order is a perfect
+   elimination ordering of U; by C08/Chordal.v (peo_last) there is a PEO with any vertex last; re-orienting U by it keeps
+   skeleton, v-structures and acyclicity. *)
 Definition cpdag_reversible_not_essential_stmt : Prop := forall d ord vs c r, is_dag d -> topo d ord ->
   cpdag_model d ord = Some (vs, c, r) -> forall a b, In (a, b) r -> ~ essential d a b.
 
-(* clause 2, FULL statement (Chickering 2002, Thm 8 + Alg. 4/5). Proved for every DAG on the nodes 0..n-1, n <= 5, every topological order
-   (C04/Bounded_5.v); not proved for larger graphs. *)
+(* clause 2, FULL statement (Chickering 2002, Thm 8 + Alg. 4/5): PROVED for all sizes, C04/Essential.v cpdag_essential_thm
+   (and independently re-checked by kernel computation for n <= 5, C04/Bounded_5.v). *)
 Definition cpdag_essential_stmt : Prop := forall d ord, is_dag d -> topo d ord ->
   exists c r, cpdag_model d ord = Some (V d, c, r) /\ forall a b, In (a, b) c <-> essential d a b.
 
